@@ -432,6 +432,32 @@ def delegation(filt, fn_class):
     raise Refuse("no body of %s::lambdify" % fn_class)
 
 
+def metrics():
+    """names of the classes derived from vita::model_metric (clang-query over the same TU)"""
+    import subprocess
+    import tempfile
+    from cxx2lean import REPO
+    q = "set bind-root true\nset output dump\nmatch cxxRecordDecl(isDefinition(), isDerivedFrom(\"::vita::model_metric\"))\n"
+    with tempfile.NamedTemporaryFile("w", suffix=".txt", dir=os.path.join(HERE, "tu"), delete=False) as f:
+        f.write(q)
+        qf = f.name
+    try:
+        p = subprocess.run(["clang-query-14", "-f", qf, os.path.join(HERE, "tu", "c08_storage_tu.cc"), "--",
+                            "-std=c++17", "-I" + os.path.join(REPO, "src"), "-isystem",
+                            os.path.join(REPO, "src", "third_party"), "-w", "-DNDEBUG", "-DVITA_VERIF"],
+                           stdout=subprocess.PIPE, stderr=subprocess.PIPE)
+    finally:
+        os.unlink(qf)
+    out = p.stdout.decode("utf-8", "replace")
+    if p.returncode != 0 or not re.search(r"\d+ match(es)?\.", out):
+        raise Refuse("clang-query failed: " + (out + p.stderr.decode("utf-8", "replace"))[-800:])
+    names = re.findall(r"^CXXRecordDecl .*?\b(?:class|struct) (\w+) definition", out, re.M)
+    n = int(re.search(r"(\d+) match(es)?\.", out).group(1))
+    if len(names) != n:
+        raise Refuse("clang-query: %d matches but %d names" % (n, len(names)))
+    return sorted(set(names))
+
+
 def generate():
     fl = storage_flavours()
     lines = ["/-",
@@ -476,6 +502,9 @@ def generate():
     lines.append("/-- the evaluator the forwarding evaluators delegate `lambdify` to -/")
     lines.append("def constrainedSel : Sel := %s" % delegation("vita::constrained_evaluator", "constrained_evaluator"))
     lines.append("def proxySel : Sel := %s" % delegation("vita::evaluator_proxy", "evaluator_proxy"))
+    lines.append("")
+    lines.append("/-- every class derived from `model_metric` -/")
+    lines.append("def metrics : List String := [%s]" % ", ".join('"%s"' % m for m in metrics()))
     lines.append("")
     lines.append("end Vita.C08.Gen")
     return "\n".join(lines) + "\n"
